@@ -20,10 +20,12 @@ PARTS = {
     "C34": ["calls"],
     "C27": ["assets", "calls"],
     "C28": ["assets", "prog", "client"],
+    "C31": ["reuse"],
+    "C32": ["debug"],
     "C29": ["fuzz", "prog"],
 }
 
-PROPERTIES = ["C21", "C24", "C25", "C26", "C27", "C28", "C29", "C34"]
+PROPERTIES = ["C21", "C24", "C25", "C26", "C27", "C28", "C29", "C31", "C32", "C34"]
 
 _COMMON_NOTE = ("Trusted base: the harness only snapshots registers/memory/receipts around each instruction and logs differences; "
                 "BigNat/SHA-256 Java overrides inside TLC. Instructions without an exact action yet are checked only against the "
@@ -94,6 +96,25 @@ MANIFEST = {
                      "panic / run out of gas must leave slots, balances and code exactly as before; a LOG loop to the 65 535 receipt bound must stop "
                      "with TooManyReceipts as the last-but-one receipt.",
                 note=_COMMON_NOTE, design_ref="4/C28"),
+    "C31": dict(category="model_checking",
+                technique="the reference execution (fresh interpreter, single-stepped) is validated instruction by instruction against the deterministic "
+                          "FuelVM specification; executions of the SAME ready transaction against equal storage on reused instances are replica "
+                          "events whose final state TLC requires to equal the reference's (receipts byte for byte, receipts root, output transaction, "
+                          "storage dump)",
+                text="For seeded pairs (history, target) the target runs on a fresh interpreter and on an interpreter that previously executed 1-3 "
+                     "other transactions (large heaps, deep stacks, warm storage-slot caches, panics, reverts), on a second fresh un-stepped "
+                     "interpreter and on a reused MemoryClient; the specification is a function of (tx, params, storage), so the accepted reference "
+                     "trace fixes the unique admissible final state and every replica must match it.",
+                note=_COMMON_NOTE + " Predicate memory modes (fresh / reused / pool) are covered by C20's check.", design_ref="4/C31"),
+    "C32": dict(category="model_checking",
+                technique="TLC trace specification: the single-stepped reference run is validated step by step and yields the sequence of visited "
+                          "(contract, pc) locations; runs without a debugger and with seeded breakpoint sets (resumed after every event) are replica "
+                          "events: equal final state, and the reported debug events must equal the reference's arrivals at breakpoint locations",
+                text="Scripts calling contracts (storage writes, logs, mint, revert / panic variants, tight loops whose target carries a breakpoint, "
+                     "breakpoints inside the callee) run plain, single-stepped and with 2-4 breakpoint sets each; TLC requires identical receipts, "
+                     "receipts root, output transaction and storage, and breaks = SelectSeq(visited locations, in breakpoint set): every arrival "
+                     "reported exactly once, in order, none spurious.",
+                note=_COMMON_NOTE, design_ref="4/C32"),
     "C29": dict(category="exploration",
                 technique="seeded byte-level and grammar-generated scripts executed on the real VM under the TLC trace specification: a host panic, "
                           "Bug error or runaway execution is an event with no specification action (trace rejected); universal per-step "
@@ -115,6 +136,8 @@ RULES = {
     "C27": "distinct = distinct (asset opcode, context script/contract, outcome, panic reason) tuples + distinct (terminal state, number of "
            "assets conserved) pairs over runs",
     "C28": "distinct = distinct (terminal state, panic reason, number of receipts, outputs shape) tuples over runs + ClientTx / RunSummary events",
+    "C31": "distinct = distinct (replica kind, history shape, terminal state, number of receipts) tuples",
+    "C32": "distinct = distinct (number of breakpoints, number of break events, terminal state) tuples + replica kinds",
     "C29": "distinct = distinct programs (by hash of code) + distinct (first opcode, terminal outcome) pairs",
 }
 
@@ -126,6 +149,10 @@ def _class_of_addr(a, regs):
 def _distinct(pid, events):
     keys = set()
     for e in events:
+        if pid in ("C31", "C32") and e.get("ev") in ("Replica", "ReplicaReceipts", "BpRun"):
+            f = e.get("final", {})
+            keys.add((e.get("ev"), e.get("kind"), tuple(e.get("history", [])), f.get("state"), f.get("nrc"), len(e.get("bps", [])), len(e.get("breaks", []))))
+            continue
         if e.get("ev") != "Step":
             continue
         w = e.get("word") or "--"
@@ -141,7 +168,7 @@ def _distinct(pid, events):
             keys.add((w[:2], out, e.get("reason"), e.get("run")))
         elif pid == "C27":
             if w[:2] in ("3c", "3d", "35", "2c", "4c", "49", "2d"):
-                keys.add((w[:2], e.get("regs", {}).get("6") is not None, out, [r.get("reason") for r in e.get("rc", []) if r.get("kind") == "Panic"][:1] and e["rc"][-2].get("reason")))
+                keys.add((w[:2], out, tuple(r.get("reason") for r in e.get("rc", []) if r.get("kind") == "Panic"), len(e.get("mem", []))))
         elif pid == "C28":
             if "fin" in e:
                 keys.add((out, len(e.get("rc", [])), tuple(r.get("reason") for r in e["rc"] if r.get("kind") == "Panic"), e.get("run") % 7))
@@ -240,7 +267,28 @@ def _mut_balance(events, rng):
     return i
 
 
-SELFTEST = {"C34": _mut_ret, "C27": _mut_balance, "C28": _mut_final_root, "C21": _mut_reg, "C24": _mut_mem, "C25": _mut_reg, "C26": _mut_gas, "C29": _mut_hostpanic}
+def _mut_replica(events, rng):
+    """self-test: a replica's receipts differ from the reference in one byte"""
+    cands = [i for i, e in enumerate(events) if e.get("ev") in ("Replica", "BpRun") and e.get("final", {}).get("rc_all")]
+    if not cands:
+        return None
+    i = rng.choice(cands)
+    r = events[i]["final"]["rc_all"][-1]
+    events[i]["final"]["rc_all"][-1] = r[:-1] + ("0" if r[-1] != "0" else "1")
+    return i
+
+
+def _mut_breaks(events, rng):
+    """self-test: one reported debug event is dropped"""
+    cands = [i for i, e in enumerate(events) if e.get("ev") == "BpRun" and e.get("breaks")]
+    if not cands:
+        return None
+    i = rng.choice(cands)
+    events[i]["breaks"].pop(rng.randrange(len(events[i]["breaks"])))
+    return i
+
+
+SELFTEST = {"C34": _mut_ret, "C31": _mut_replica, "C32": _mut_breaks, "C27": _mut_balance, "C28": _mut_final_root, "C21": _mut_reg, "C24": _mut_mem, "C25": _mut_reg, "C26": _mut_gas, "C29": _mut_hostpanic}
 
 
 def run(pid, tier):
